@@ -12,7 +12,10 @@
   Facts regenerated from the source on every run (Model/GeneratedC09.lean): create mode "a", the completeness test
   `ndim == 0 or nchunks_initialized != nchunks`, all outputs checked, `write_empty_chunks = True`, `skip_node` honours
   `computed`, NotImplementedError for storage without `nchunks_initialized`.
-  Modelling assumption: a chunk write is atomic (no torn chunk files).
+  Modelling assumption: a chunk write is atomic (no torn chunk files).  The order in which zarr issues the stored-chunk
+  writes of one task is not fixed; every order is a schedule in the sense of `ValidSched`, so the interleaving
+  theorems (`C09_complete_implies_final`, `C09_resume_after_crash`) cover all of them, while `trace` / `crashSeq` fix
+  the order of the task's write list.
 -/
 import CubedModel.Proofs.Resume
 
